@@ -38,11 +38,46 @@ Theorem C20_pass_facts :
   check_pass_facts translator_ok_logging server_censor_commands server_censor_guard_count
     parse_command_called_with_default parse_command_returns_lowered_verb pass_replies_literal
     pass_rest_sinks pass_decorator_rest_sinks dispatcher_rest_sinks
-    dispatcher_verb_var dispatcher_rest_var unknown_verb_reply_names
+    dispatcher_lookup_by_parsed_verb unknown_verb_reply_names
     login_pass_prefix login_pass_censor_after login_forwards_censor_after
     client_password_uses secret_raise_sites = true.
 Proof. exact pass_facts_ok. Qed.
 Print Assumptions C20_pass_facts.
+
+(* no logging call anywhere is handed an object of a class whose __repr__/__str__ prints the password it was
+   configured with (Gen.Logging.secret_repr_classes, today ["User"]): such objects are found by USE (an expression
+   read as E.<field of that class> in the enclosing function), the taint pass treats them as a password source *)
+Theorem C20_no_secret_object_logged : Gen.Logging.secret_object_log_args = [].
+Proof. exact secret_objects_ok. Qed.
+Print Assumptions C20_no_secret_object_logged.
+
+(* which handler a line REACHES vs. what the censor decided.  The dispatcher looks the handler up by the verb
+   parse_command returned and by nothing else (dispatcher_lookup_by_parsed_verb, parse_command_returns_lowered_verb in
+   C20_pass_facts), commands_mapping is a literal dict assigned once, and every key bound to the PASS handler
+   (Gen.Logging.pass_handler_verbs, today ["pass"]; an alias entry would be listed) is in parse_command's censor tuple. *)
+Theorem C20_pass_handler_verbs_censored :
+  commands_mapping_literal
+  && forallb (fun v => text_in v server_censor_commands) pass_handler_verbs
+  && text_in VERB_PASS pass_handler_verbs = true.
+Proof. exact pass_handler_verbs_censored. Qed.
+Print Assumptions C20_pass_handler_verbs_censored.
+
+(* Hence: for EVERY line -- no assumption on its shape, separator, ending or spelling -- whose dispatch key
+   lower(text before the first space of the rstripped line) is bound to the PASS handler, the record parse_command logs
+   is the same as for any other line with the same verb and a rest of the same length: judged by the handler the line
+   reaches, not by how the verb is spelt. *)
+Theorem C20_line_reaching_pass_handler_is_censored : forall l1 l2,
+  In (lower (fst (split_command l1))) pass_handler_verbs ->
+  fst (split_command l1) = fst (split_command l2) ->
+  length (snd (split_command l1)) = length (snd (split_command l2)) ->
+  server_parse_command_log server_censor_commands l1 = server_parse_command_log server_censor_commands l2.
+Proof. exact inst_line_reaching_pass_handler_is_censored. Qed.
+Print Assumptions C20_line_reaching_pass_handler_is_censored.
+
+(* non-vacuity: "PaSs  a b \r\n" reaches the PASS handler *)
+Example C20_reaching_example :
+  In (lower (fst (split_command [80;97;83;115;32;32;97;32;98;32;13;10]))) pass_handler_verbs.
+Proof. vm_compute. left. reflexivity. Qed.
 
 (* ---------------------------------------------------------------- server *)
 (* For every spelling V the server dispatches as PASS, all arguments p1 p2 (spaces, leading or
